@@ -5,7 +5,8 @@ from copy import copy
 RULE = ("random curves (polynomial/rational, degree 0..3, scalar/vector) paired with: refined copies (random knot insertions), elevated copies, "
         "refined+elevated copies, perturbed copies (first / last / middle control point, one weight; perturbation 1/1000 or larger), rational "
         "descriptions of the same function (weights scaled, polynomial curve with constant weights), unrelated curves, curves on other intervals, "
-        "non-curves; both operand orders, == and !=.  Non-trivial: an interior knot or degree >= 2; distinct = distinct (A, B).")
+        "non-curves; both operand orders, == and !=.  Non-trivial: an interior knot or degree >= 2; distinct = distinct (A, B)."
+        " Also: shared knots with raised multiplicities, perturbations of 1e-6 and 1e-7 (absolute), equal weight tuples on different knot vectors.")
 EXPLANATION = ("L3: the truth value of A == B is compared with `rf.eq` (Lean-decided equality of the span polynomials, cross-multiplied for "
                "rational curves); perturbations are far above 1e-9 or exactly zero so the tolerance band never decides.  L2: the same truth "
                "value vs the model of __eq__ (refinement to the union vector + 1e-9 comparison).")
